@@ -51,3 +51,23 @@ Definition plcase_status (c : plcase) : N :=
      | p :: r => if owire_eqb (map (fun x => (fst x, option_map norm_size (snd x))) w)
                                 (map (fun x => (fst x, Some (norm_size (snd x)))) p) then go r (i + 1) else 1 + i
      end) plans 0.
+
+(* ---- the C++ layout / trait model against the compiler (harness/checks/c14.py, layout_layer) ---- *)
+From YV Require Import Model.CppLayout.
+
+(* record type, observed trait, observed sizeof, observed offsetof of each member *)
+Definition laycase := (ty * bool * N * list N)%type.
+
+(* 0: trait, sizeof and offsets agree; 1: a member type has no layout in the model, the trait (false) agrees;
+   2: trait differs; 3: sizeof differs; 4: offsets differ *)
+Definition laycase_status (c : laycase) : N :=
+  let '(t, tr, sz, offs) := c in
+  if negb (Bool.eqb (ts true t) tr) then 2
+  else match t with
+       | TRec fs =>
+           match layout t, offsets_of layout fs 0 with
+           | Some (s, _), Some o => if negb (s =? sz) then 3 else if list_eq_N o offs then 0 else 4
+           | _, _ => 1
+           end
+       | _ => 1
+       end.
